@@ -90,6 +90,13 @@ func legEntry(c *Ctx) {
 	for _, h := range harvestedPatterns() {
 		pats = append(pats, patCase{pat: h, alpha: []rune("abcxyz01 \n-_@.AZé")})
 	}
+	// sparse explicit group numbers (number != slot) that the pattern itself refers to: the bool-only and find-all
+	// entry points run a capture-pruned program and must keep exactly the groups that are referred to
+	for _, s := range []string{`(?<2>a)(?<3>b)\2`, `(?<2>\w)(?<3>\d)?\2`, `(?<7>a)?(?(7)b|c)`, `(?<5>a)(b)\5`, `(?<3>a)(?<x>b)\3\k<x>`, `(?<2>a)(?<4>b)(?<6>c)?\4`, `(?<10>a)(?<20>b)\20\10`, `\2(?<3>b)(?<2>a)`} {
+		for _, o := range []Opts{{}, {RTL: true}, {I: true}} {
+			pats = append(pats, patCase{pat: s, o: o, alpha: []rune("ab1c")}, patCase{pat: s, o: o, cg: true, alpha: []rune("ab1")})
+		}
+	}
 	classes := map[string]int{}
 	for _, p := range pats {
 		if c.Rng.Chance(8) {
